@@ -306,6 +306,24 @@ class Program:
         n1 = {fact_nf(f) for f in f1 if f[0][0] == "cmp"}
         n2 = {fact_nf(f) for f in f2 if f[0][0] == "cmp"}
         dist = [n for n in n1 if negate_cmp(n) in n2]
+        # slice lookups with a default: `if i < v.len() { v[i] } else { d }` is v.get(i).unwrap_or(d),
+        # `if v.len() == 0 { d } else { v[v.len() - 1] }` is v.last().unwrap_or(d)
+        for (x, y, nx) in ((v1, v2, n1), (v2, v1, n2)):
+            if x[0] == "index" and len(x) == 3:
+                vec, i = x[1], x[2]
+                for ln in ("[]::len", "Vec::len"):
+                    L = _poly(("call", ln, (vec,)))
+                    other = n2 if nx is n1 else n1
+                    is_last = _poly(i) == L - Poly.const(1)
+                    cond = GE0(L - Poly.const(1)) if is_last else GT0(L - _poly(i))
+                    if cond in nx and negate_cmp(cond) in other:
+                        if is_last:
+                            r = ("call", "Option::unwrap_or", (("call", "[]::last", (vec,)), y))
+                        else:
+                            r = ("call", "Option::unwrap_or", (("call", "[]::get", (vec, i)), y))
+                        r = self.simp(r, body)
+                        memo[key] = r
+                        return r
         if dist:
             a, b = _poly(v1), _poly(v2)
             if is_int_poly(a) and is_int_poly(b) and not (v1[0] in ("adt", "tuple") or v2[0] in ("adt", "tuple")):
